@@ -177,6 +177,8 @@ class Explorer:
         label: str = "explore",
         plans_per_worker: int | None = None,
         crash_points: int | None = 0,
+        switch_points: int | None = 0,
+        switch_cap: int | None = 400,
     ):
         self.repo = os.path.abspath(repo)
         self.jobs = jobs
@@ -194,6 +196,8 @@ class Explorer:
         self.label = label
         self.plans_per_worker = plans_per_worker
         self.crash_points = crash_points
+        self.switch_points = switch_points
+        self.switch_cap = switch_cap
         self.focus = changed_lines(self.repo)
         self.workdir = tempfile.mkdtemp(prefix="exponax-dst-")
         global XLA_CACHE_DIR
@@ -285,7 +289,7 @@ class Explorer:
 
     # ---------------------------------------------------------------- 3. simulate
     def make_plans(self):
-        from sim import make_crash_probe_plan, make_plan
+        from sim import make_crash_probe_plan, make_plan, make_switch_probe_plan
 
         seeds = [self.seed_base + i for i in range(self.n_seeds)]
         plans = {False: [], True: []}
@@ -316,6 +320,31 @@ class Explorer:
             tgt = cands[int(hashlib.sha256(f"{self.seed_base}-{ln}-op".encode()).hexdigest(), 16) % len(cands)]
             x64 = bool(j % 2)
             plans[x64].append(make_crash_probe_plan(1_000_000_000 + self.seed_base + j, self.keys, self.groups, self.ops, target=tgt, at_line=ln))
+        # single-preemption enumeration: park one operation at its first arrival at a source line, let a neighbour
+        # (twin / other program form / duplicate of the same configuration) run to completion, resume. Lines inside
+        # uncommitted hunks are tried against *every* neighbour (capped), the seeded sample against one.
+        import random as _random
+
+        sw = 0
+        n_switch = len(lines) if self.switch_points is None else min(self.switch_points, len(lines))
+        rest_sw = sorted((ln for ln in lines if ln not in set(focus)), key=lambda ln: hashlib.sha256(f"{self.seed_base}-sw-{ln}".encode()).hexdigest())[:n_switch]
+        for ln in focus + rest_sw:
+            rng = _random.Random(f"switch-{self.seed_base}-{ln}")
+            cands = sorted(line_ops[ln])
+            tgt = rng.choice(cands)
+            neigh = sorted(k for k in self.groups[self.ops[tgt]["group"]] if not self.ops[k]["atomic"])
+            if not neigh:
+                continue
+            others = neigh if ln in set(focus) else [rng.choice(neigh)]
+            if len(others) > 12:
+                others = rng.sample(others, 12)
+            for other in others:
+                if sw >= (self.switch_cap or 10**9):
+                    break
+                extra = [rng.choice(neigh)] if rng.random() < 0.5 else []
+                plans[bool(sw % 2)].append(make_switch_probe_plan(2_000_000_000 + self.seed_base + sw, tgt, other, ln, extra))
+                sw += 1
+        self.crash_point_plan["switch_probes"] = sw
         return plans
 
     @staticmethod
@@ -402,7 +431,7 @@ class Explorer:
                 diverged.append({"seed": rr["seed"], "first": first["variant"], "second": rr["variant"]})
         self.diverged = diverged
 
-        agg = {"line_events": 0, "decisions": 0, "switches": 0, "line_switches": 0, "ops_completed": 0, "ops_crashed": 0, "ops_raised": 0, "retries": 0}
+        agg = {"line_events": 0, "decisions": 0, "switches": 0, "line_switches": 0, "ops_completed": 0, "ops_crashed": 0, "ops_raised": 0, "retries": 0, "session_leaks": 0, "lock_waits": 0, "scripted_switches": 0}
         faults: dict = {}
         ops_seen = set()
         by_session = [0, 0]
@@ -446,6 +475,8 @@ class Explorer:
                 getattr(self, "crash_point_plan", {}),
                 scripted_crashes_fired=sum(1 for r in good if r["plan"].get("crash_at") and r["stats"]["faults"]["crash"] > 0),
                 probe_runs=sum(1 for r in good if r["plan"].get("crash_at")),
+                switch_probe_runs=sum(1 for r in good if r["plan"].get("switch_at")),
+                scripted_switches_fired=sum(r["stats"].get("scripted_switches", 0) for r in good),
             ),
         }
         self.report["seams"] = {"hits_total": self.seam_totals, "hits_from_package": self.seam_pkg_hits}
